@@ -543,8 +543,8 @@ def probe_key(expr):
 def run_probe(expr):
     env = dict(os.environ, PYTHONPATH=common.REPO, PYTHONHASHSEED='0', PYTHONDONTWRITEBYTECODE='1')
     try:
-        p = subprocess.run([common.PY, '-c', PROBE_SRC, expr], env=env, stdout=subprocess.PIPE, stderr=subprocess.PIPE,
-                           text=True, timeout=60)
+        p = common.patient_run([common.PY, '-c', PROBE_SRC, expr], env=env, stdout=subprocess.PIPE, stderr=subprocess.PIPE,
+                               text=True, timeout=60)
     except subprocess.TimeoutExpired:
         return 'hang'
     out = p.stdout.strip().split('\n')[-1] if p.stdout.strip() else 'crash rc=%s' % p.returncode
